@@ -30,6 +30,7 @@ func main() {
 	repo := flag.String("repo", "/repo", "repository directory")
 	verif := flag.String("verif", "/verif", "verification directory (evidence/, out/, known_findings.json)")
 	dump := flag.String("dump", "", "debug: roots|funcs|calls:<fn>")
+	list := flag.String("list", "", "debug: print every obligation whose construct contains this substring ('*' = all)")
 	flag.Parse()
 	if t := os.Getenv("VERIF_TIER"); t != "" && !isFlagSet("tier") {
 		*tier = t
@@ -100,6 +101,13 @@ func main() {
 		c.Measured["root_packages"] = u.NPkgs
 		c.Measured["mq_files"] = len(prog.Files)
 		pc.Run(prog, c)
+		if *list != "" {
+			for _, o := range c.Obls {
+				if *list == "*" || strings.Contains(o.Construct, *list) || strings.Contains(o.Rule, *list) {
+					fmt.Printf("%-10s %-5s %s  [%s]  %s\n", o.Status, o.Rule, o.Construct, o.Pos, o.Detail)
+				}
+			}
+		}
 		runCanaries(u, pc, c, *verif)
 		if *tier == "thorough" {
 			runThorough(u, *repo, pc, c, *verif)
@@ -170,6 +178,14 @@ func debugDump(p *Prog, what string) {
 				if len(r) > 0 {
 					fmt.Printf("   res%d %s\n", i, r)
 				}
+			}
+		}
+	case strings.HasPrefix(what, "ssa:"):
+		n := strings.TrimPrefix(what, "ssa:")
+		for _, f := range p.AllFuncs() {
+			if qname(f) == n {
+				fmt.Println("synthetic:", f.Synthetic, "recv:", f.Signature.Recv(), "params:", len(f.Params))
+				f.WriteTo(os.Stdout)
 			}
 		}
 	case strings.HasPrefix(what, "calls:"):
